@@ -504,6 +504,12 @@ func trSExpr(pi *pkgInfo, e ast.Expr) string {
 		if x.Op == token.QUO {
 			return fmt.Sprintf("(XDiv %s %s %s)", coqTy(pi, e, tv.Type), trSExpr(pi, x.X), trSExpr(pi, x.Y))
 		}
+		if x.Op == token.LOR {
+			return fmt.Sprintf("(XOrElse %s %s)", trSExpr(pi, x.X), trSExpr(pi, x.Y))
+		}
+		if x.Op == token.LAND {
+			return fmt.Sprintf("(XAndAlso %s %s)", trSExpr(pi, x.X), trSExpr(pi, x.Y))
+		}
 		op, ok := binops[x.Op]
 		if !ok {
 			fail(pi, e, "operator %s", x.Op)
@@ -603,8 +609,23 @@ func trSStmt(pi *pkgInfo, s ast.Stmt) string {
 		}
 		switch l := x.Lhs[0].(type) {
 		case *ast.Ident:
+			if x.Tok == token.ASSIGN {
+				uv, ok := pi.info.Uses[l].(*types.Var)
+				if !ok {
+					fail(pi, s, "assignment to %s", l.Name)
+				}
+				if _, isSl := uv.Type().Underlying().(*types.Slice); isSl {
+					// s = append(s, e)
+					call, ok := x.Rhs[0].(*ast.CallExpr)
+					if !ok || types.ExprString(call.Fun) != "append" || len(call.Args) != 2 || call.Ellipsis.IsValid() || types.ExprString(call.Args[0]) != l.Name {
+						fail(pi, s, "slice assigned something else than append of itself and one element")
+					}
+					return fmt.Sprintf("TAppend %q %s", l.Name, trSExpr(pi, call.Args[1]))
+				}
+				return fmt.Sprintf("TAssign %q %s", l.Name, trSExpr(pi, x.Rhs[0]))
+			}
 			if x.Tok != token.DEFINE {
-				fail(pi, s, "assignment to a variable (only declarations are in the fragment)")
+				fail(pi, s, "assignment operator %s", x.Tok)
 			}
 			v, ok := pi.info.Defs[l].(*types.Var)
 			if !ok {
@@ -612,7 +633,8 @@ func trSStmt(pi *pkgInfo, s ast.Stmt) string {
 			}
 			if sl, ok := v.Type().Underlying().(*types.Slice); ok {
 				call, ok := x.Rhs[0].(*ast.CallExpr)
-				if !ok || types.ExprString(call.Fun) != "make" || len(call.Args) != 2 {
+				// make([]T, n) or make([]T, n, capacity): the capacity is not modelled (see MiniGo/Slice.v, TAppend)
+				if !ok || types.ExprString(call.Fun) != "make" || (len(call.Args) != 2 && len(call.Args) != 3) {
 					fail(pi, s, "slice declared by something else than make([]T, n)")
 				}
 				return fmt.Sprintf("TMake %q %s %s", l.Name, elemTy(pi, s, sl.Elem()), trSExpr(pi, call.Args[1]))
@@ -635,6 +657,40 @@ func trSStmt(pi *pkgInfo, s ast.Stmt) string {
 			return fmt.Sprintf("TStore %q %s %s", n, trSExpr(pi, l.Index), trSExpr(pi, rhs))
 		}
 		fail(pi, s, "assignment form")
+	case *ast.IncDecStmt:
+		op := "OAdd"
+		if x.Tok == token.DEC {
+			op = "OSub"
+		}
+		switch l := x.X.(type) {
+		case *ast.Ident:
+			uv, ok := pi.info.Uses[l].(*types.Var)
+			if !ok {
+				fail(pi, s, "increment of %s", l.Name)
+			}
+			return fmt.Sprintf("TAssign %q (XBin %s %s (XVar %q) (XConst 1%%Z))", l.Name, op, coqTy(pi, s, uv.Type()), l.Name)
+		case *ast.IndexExpr:
+			n, ok := sliceIdent(pi, l.X)
+			if !ok || isFloat(pi.info.Types[l].Type) {
+				fail(pi, s, "increment form")
+			}
+			idx := trSExpr(pi, l.Index)
+			return fmt.Sprintf("TStore %q %s (XBin %s %s (XIndex %q %s) (XConst 1%%Z))", n, idx, op, coqTy(pi, s, pi.info.Types[l].Type), n, idx)
+		}
+		fail(pi, s, "increment form")
+	case *ast.IfStmt:
+		if x.Init != nil {
+			fail(pi, s, "if with an init statement")
+		}
+		els := "[]"
+		switch e := x.Else.(type) {
+		case nil:
+		case *ast.BlockStmt:
+			els = trSBlock(pi, e)
+		default:
+			els = "[" + trSStmt(pi, e) + "]"
+		}
+		return fmt.Sprintf("TIf %s\n %s\n %s", trSExpr(pi, x.Cond), trSBlock(pi, x.Body), els)
 	case *ast.ExprStmt:
 		call, ok := x.X.(*ast.CallExpr)
 		if !ok {
@@ -652,7 +708,7 @@ func trSStmt(pi *pkgInfo, s ast.Stmt) string {
 	case *ast.RangeStmt:
 		k, ok := x.Key.(*ast.Ident)
 		n, ok2 := sliceIdent(pi, x.X)
-		if !ok || !ok2 || k.Name == "_" || x.Tok != token.DEFINE {
+		if !ok || !ok2 || (k.Name == "_" && x.Value == nil) || x.Tok != token.DEFINE {
 			fail(pi, s, "range form")
 		}
 		if writesTo(x.Body, n) && x.Value != nil {
@@ -671,6 +727,11 @@ func trSStmt(pi *pkgInfo, s ast.Stmt) string {
 		if len(x.Results) == 1 {
 			if n, ok := sliceIdent(pi, x.Results[0]); ok {
 				return fmt.Sprintf("TReturn %q", n)
+			}
+			if call, ok := x.Results[0].(*ast.CallExpr); ok && types.ExprString(call.Fun) == "append" && len(call.Args) == 2 && !call.Ellipsis.IsValid() {
+				if n, ok := sliceIdent(pi, call.Args[0]); ok {
+					return fmt.Sprintf("TReturnApp %q %s", n, trSExpr(pi, call.Args[1]))
+				}
 			}
 		}
 		fail(pi, s, "return form")
@@ -716,7 +777,7 @@ func emitSliceFunc(out *strings.Builder, pi *pkgInfo, name string) {
 					if id == nil || id.Name == "_" {
 						return
 					}
-					if seen[id.Name] || id.Name == "binary" || id.Name == "math" || id.Name == "len" || id.Name == "make" {
+					if seen[id.Name] || id.Name == "binary" || id.Name == "math" || id.Name == "len" || id.Name == "make" || id.Name == "append" {
 						fail(pi, id, "identifier %s declared twice or shadowing", id.Name)
 					}
 					seen[id.Name] = true
@@ -951,6 +1012,9 @@ func main() {
 				return strings.HasPrefix(n, "PointType") || strings.HasPrefix(n, "NodeType") || strings.HasPrefix(n, "PointValue") || n == "maxStructureSize" || n == "maxSafeInteger"
 			})
 			emitHashRecipe(&out, pi, "Point", "CRC")
+		}},
+		{"client", func(pi *pkgInfo) {
+			emitSliceFunc(&out, pi, "cobsEncode")
 		}},
 		{"store", func(pi *pkgInfo) {
 			emitLocalString(&out, pi, "go_store_NewSqliteDb_pragmas", "NewSqliteDb", "pragmas")
